@@ -217,7 +217,7 @@ def case_resid(col, p):
     m, d = _base(shape, p['seed'])
     free = _free_entries(shape, 2)
     n = 0
-    for mv, x in itertools.product([1e-3, 0.5, 2.5, 40.0], DVALS):
+    for mv, x in itertools.product([0.0, 1e-3, 0.5, 2.5, 40.0], DVALS):
         mm = np.zeros(shape, bool); dm = np.zeros(shape, bool)
         mm[free[1]] = True
         m2, d2 = m.copy(), d.copy()
@@ -238,32 +238,35 @@ def case_resid(col, p):
             ans = Inference.Anscombe_Poisson_residual(model, data)
             col.tick(transitions=2)
             n += 1
-            sel = ~exmask
+            valid = me > 0           # where the model is 0 the residual is undefined; only the mask rule is checked there
+            sel = ~exmask & valid
             with np.errstate(all='ignore'):
                 exlin = (me - de) / np.sqrt(me)
             info = dict(p, mv=mv, x=x, folded=folded)
-            if not np.array_equal(np.ma.getmaskarray(lin), exmask):
+            if not np.array_equal(np.ma.getmaskarray(lin)[valid], exmask[valid]):
                 col.violation('C11:linear_Poisson_residual:mask', info, {'got': np.ma.getmaskarray(lin).astype(int), 'exp': exmask.astype(int)})
             elif not np.allclose(np.asarray(lin.data)[sel], exlin[sel], rtol=1e-12, atol=1e-14):
                 col.violation('C11:linear_Poisson_residual:value', info, '')
             # documented sign: residual positive where the model is above the data (both kinds)
             ga = np.asarray(np.ma.filled(ans, np.nan))
             for idx in np.ndindex(*shape):
-                if exmask[idx] or de[idx] == 0:
+                if exmask[idx] or de[idx] == 0 or not valid[idx]:
                     continue
                 s = np.sign(me[idx] - de[idx])
                 if s != 0 and abs(me[idx] - de[idx]) > 0.2 * max(me[idx], de[idx]) and np.sign(ga[idx]) != s:
                     col.violation('C11:Anscombe_Poisson_residual:sign', dict(info, idx=idx), {'model': me[idx], 'data': de[idx], 'resid': float(ga[idx])})
-            # mask argument
-            for cut in (0.6, 3.0):
+            # mask argument: entries with model <= level and data <= level are masked (levels incl. exact model/data values and 0)
+            for cut in sorted(set((0.6, 3.0, mv, max(x, 1e-3), 0.0))):
                 linm = Inference.linear_Poisson_residual(model, data, mask=cut)
-                exm2 = exmask | ((me <= cut) & (de <= cut))
-                if not np.array_equal(np.ma.getmaskarray(linm), exm2):
-                    col.violation('C11:linear_Poisson_residual:mask_arg', dict(info, cut=cut), {'got': np.ma.getmaskarray(linm).astype(int), 'exp': exm2.astype(int)})
+                rule = (me <= cut) & (de <= cut)
+                exm2 = exmask | rule
+                gm2 = np.ma.getmaskarray(linm)
+                if not np.array_equal(gm2[valid], exm2[valid]) or not gm2[rule].all():
+                    col.violation('C11:linear_Poisson_residual:mask_arg', dict(info, cut=cut), {'got': gm2.astype(int), 'exp': exm2.astype(int)})
                 ansm = Inference.Anscombe_Poisson_residual(model, data, mask=cut)
                 exm3 = exm2 | (de == 0)
                 gm = np.ma.getmaskarray(ansm)
-                if not np.array_equal(gm | exmask, exm3):
+                if not np.array_equal((gm | exmask)[valid], exm3[valid]) or not gm[rule].all():
                     col.violation('C11:Anscombe_Poisson_residual:mask_arg', dict(info, cut=cut), {'got': gm.astype(int), 'exp': exm3.astype(int)})
     col.tick(states=n, traces=n)
     col.distinct('nontrivial', ('resid', shape))
